@@ -12,5 +12,6 @@ Extraction "model_oom.ml" errno
   object_add object_add_orig arr_add attach_array
   pb_new pb_step pb_reset ser_ops run_ops pb_text serialize_fallible serialize_orig ser_text
   mklpb lpb_step sprintbuf sprintbuf_flat
+  mkfc fmt_init set_format_cfg set_format_early effective
   AlModel.al_new2 AlModel.al_step AlModel.al_add
   StrModel.new_string_len StrModel.str_step StrModel.get_string StrModel.live_count.
